@@ -555,7 +555,10 @@ class AsyncFIXConnection:
         if FTag.MsgSeqNum not in msg:
             return "MsgSeqNum(34) tag is missing"
 
-        msg_seq_num = int(msg[FTag.MsgSeqNum])
+        try:
+            msg_seq_num = int(msg[FTag.MsgSeqNum])
+        except ValueError:
+            return f"MsgSeqNum(34) is not a number: {repr(msg[FTag.MsgSeqNum])}"
         if msg_seq_num < self._session.next_num_in:
             _is_err = True
             if msg.msg_type == FMsg.SEQUENCERESET:
